@@ -22,12 +22,12 @@ Failures(ps, e, ln) ==
   { [prop |-> p.prop, pred |-> p.name, trace |-> e.t, line |-> ln,
      sig |-> p.name \o ":" \o e.sig] : p \in {q \in ps : ~q.ok} }
 
-\* Keep at most KeepPerSig records per signature (a known finding may fire thousands of times;
+\* Keep at most TkKeepPerSig records per signature (a known finding may fire thousands of times;
 \* an unbounded set makes validation quadratic).  Every failure is still counted by Count under
 \* the name "failed <sig>".
-KeepPerSig == 5
+TkKeepPerSig == 5
 Merge(viol, fs) ==
-  viol \cup {f \in fs : Cardinality({v \in viol : v.sig = f.sig}) < KeepPerSig}
+  viol \cup {f \in fs : Cardinality({v \in viol : v.sig = f.sig}) < TkKeepPerSig}
 
 BaseName(n) == n   \* names are used as they are for counting
 
